@@ -152,8 +152,14 @@ def ltv_class(timevarying_c: bool):
         def __init__(self, A, B, C, D, c1=None, c2=None):
             super().__init__(A, B, C, D, c1, c2)
 
+        fail_at = -1       # user code raising: the k-th read of A from now raises (then disarms itself)
+
         @property
         def A(self):
+            if self.fail_at >= 0:
+                self.fail_at -= 1
+                if self.fail_at < 0:
+                    raise ArithmeticError("user system raised (injected by the harness)")
             return self._A[..., self._t, :, :]
 
         @property
